@@ -114,7 +114,7 @@ class ScalesConfig(BaseConfig, Immutable):
             and np.array_equal(self.rmax, other.rmax)
             and self.unit == other.unit
             and self.rweight == other.rweight
-            and self.rbin_num == other.rbin_num
+            and self.resolution == other.resolution
         )
 
     @classmethod
